@@ -70,6 +70,7 @@ type loopInfo struct {
 	con     *LoopCon
 	phiIn   map[*ssa.Phi]Val
 	modRefs map[string][]string // comp -> refs the loop may write below the entry frontier
+	localAllocs []*ssa.Alloc
 }
 
 type unsupported struct{ msg string }
